@@ -132,6 +132,8 @@ func build(c caseT) (*world, error) {
 		w.qname = "ent.wild.zone.test."
 	case "whost":
 		w.qname = "host.wild.zone.test."
+	case "rootnx":
+		w.qname = "nxtld-verif." // denied by the root zone itself
 	}
 	w.rogue = authkit.NewKey(zoneName, 0)
 	if c.Tamper["dnskey"] == "clonetag" && w.zone.Key0() != nil {
@@ -288,7 +290,7 @@ func dropProofs(sec []dns.RR) []dns.RR {
 func (w *world) install(c caseT) (applied *int) {
 	count := 0
 	hooks := map[*authkit.Server][]func(*authkit.Exchange){}
-	for _, pos := range []string{"rootref", "referral", "dnskey", "answer"} {
+	for _, pos := range []string{"rootkey", "rootref", "referral", "dnskey", "answer"} {
 		kind := c.Tamper[pos]
 		if kind == "" || kind == "none" || kind == "clonetag" {
 			continue
@@ -311,6 +313,15 @@ func (w *world) install(c caseT) (applied *int) {
 
 func (w *world) hookFor(pos, kind string, count *int) (*authkit.Server, func(*authkit.Exchange)) {
 	switch pos {
+	case "rootkey":
+		// the root's own DNSKEY RRset: what the trust anchors authenticate with no DS in between
+		return w.n.RootSrv, func(ex *authkit.Exchange) {
+			if ex.Zone == nil || ex.Zone.Name != "." || ex.Q.Qtype != dns.TypeDNSKEY || ex.Q.Name != "." {
+				return
+			}
+			*count++
+			ex.Resp.Answer = w.tamperSection(ex.Resp.Answer, kind, w.n.Root, func(rr dns.RR) bool { return rr.Header().Rrtype == dns.TypeDNSKEY })
+		}
 	case "rootref":
 		// the ROOT's referral for test. (and its answer to a DS query for test.): the one delegation whose
 		// DS the trust anchors authenticate directly
@@ -460,15 +471,32 @@ func (w *world) hookFor(pos, kind string, count *int) (*authkit.Server, func(*au
 			ex.Resp.Answer = w.tamperSection(ex.Resp.Answer, kind, w.zone, func(rr dns.RR) bool { return rr.Header().Rrtype == dns.TypeDNSKEY })
 		}
 	case "answer":
-		return w.zoneSrv, func(ex *authkit.Exchange) {
-			if ex.Zone == nil || ex.Zone.Name != zoneName {
+		ansSrv, ansZone, signer := w.zoneSrv, zoneName, w.zone
+		if w.qname == "nxtld-verif." { // the root answers this question itself
+			ansSrv, ansZone, signer = w.n.RootSrv, ".", w.n.Root
+		}
+		return ansSrv, func(ex *authkit.Exchange) {
+			if ex.Zone == nil || ex.Zone.Name != ansZone {
 				return
 			}
 			if ex.Q.Qtype != w.qtype || !strings.EqualFold(ex.Q.Name, w.qname) {
 				return
 			}
 			*count++
+			if ansZone == "." {
+				switch kind {
+				case "inject", "fakedname", "foreigndeny", "wildrep", "wildforeign", "roguesig":
+					*count-- // these replies are built for zone.test. only
+					return
+				}
+			}
 			switch kind {
+			case "barenx":
+				ex.Resp.Rcode = dns.RcodeNameError
+				ex.Resp.Answer, ex.Resp.Ns = nil, nil
+			case "bareempty":
+				ex.Resp.Rcode = dns.RcodeSuccess
+				ex.Resp.Answer, ex.Resp.Ns = nil, nil
 			case "dropproof":
 				ex.Resp.Ns = dropProofs(ex.Resp.Ns)
 			case "foreignproof":
@@ -602,9 +630,9 @@ func (w *world) hookFor(pos, kind string, count *int) (*authkit.Server, func(*au
 				ex.Resp.Answer = append(ex.Resp.Answer, authkit.SignRRset(victim, "ne.test.", w.evil.Key0(), time.Now().Add(-time.Hour), time.Now().Add(24*time.Hour)))
 			default:
 				all := func(rr dns.RR) bool { return true }
-				ex.Resp.Answer = w.tamperSection(ex.Resp.Answer, kind, w.zone, all)
+				ex.Resp.Answer = w.tamperSection(ex.Resp.Answer, kind, signer, all)
 				if len(ex.Resp.Answer) == 0 {
-					ex.Resp.Ns = w.tamperSection(ex.Resp.Ns, kind, w.zone, all)
+					ex.Resp.Ns = w.tamperSection(ex.Resp.Ns, kind, signer, all)
 				}
 			}
 		}
@@ -618,10 +646,23 @@ func zoneSigned(k string) bool { return k == "signed" || k == "signed-same" || k
 
 func effectiveAt(c caseT, pos string) bool {
 	kind := c.Tamper[pos]
-	needsProof := c.QK == "nodata" || c.QK == "nx" || c.QK == "wild" || c.QK == "ent"
+	needsProof := c.QK == "nodata" || c.QK == "nx" || c.QK == "wild" || c.QK == "ent" || c.QK == "rootnx"
+	rootOnly := c.QK == "rootnx"
 	switch {
 	case kind == "" || kind == "none" || kind == "clonetag":
 		return false
+	case rootOnly && pos != "rootkey" && pos != "answer":
+		return false // the root answers the question: nothing below it is asked
+	case pos == "rootkey":
+		return true
+	case rootOnly && pos == "answer":
+		switch kind {
+		case "wildrep", "wildforeign", "fakedname", "foreigndeny", "inject":
+			return false
+		case "dropproof", "foreignproof":
+			return needsProof
+		}
+		return kind != "roguesig"
 	case pos == "rootref":
 		return true // the parent (test.) is signed in every configuration
 	case pos == "referral" && (kind == "dropproof" || kind == "foreignproof"):
@@ -645,10 +686,13 @@ func effectiveAt(c caseT, pos string) bool {
 }
 
 func effective(c caseT) bool {
-	return effectiveAt(c, "rootref") || effectiveAt(c, "referral") || effectiveAt(c, "dnskey") || effectiveAt(c, "answer")
+	return effectiveAt(c, "rootkey") || effectiveAt(c, "rootref") || effectiveAt(c, "referral") || effectiveAt(c, "dnskey") || effectiveAt(c, "answer")
 }
 
 func tamperString(c caseT) string {
+	if rk := c.Tamper["rootkey"]; rk != "" && rk != "none" {
+		return fmt.Sprintf("rootkey=%s rootref=%s referral=%s dnskey=%s answer=%s", rk, c.Tamper["rootref"], c.Tamper["referral"], c.Tamper["dnskey"], c.Tamper["answer"])
+	}
 	if rr := c.Tamper["rootref"]; rr != "" && rr != "none" {
 		return fmt.Sprintf("rootref=%s referral=%s dnskey=%s answer=%s", rr, c.Tamper["referral"], c.Tamper["dnskey"], c.Tamper["answer"])
 	}
@@ -701,7 +745,7 @@ func judge(c caseT, w *world, r *dns.Msg, edns bool) (string, string) {
 	if truth.Kind == "nxdomain" || truth.Kind == "answer-nxdomain" {
 		wantRcode = dns.RcodeNameError
 	}
-	pathSecure := c.Anchor && zoneSigned(c.Zone) && !effective(c)
+	pathSecure := c.Anchor && (zoneSigned(c.Zone) || c.QK == "rootnx") && !effective(c)
 	if r.AuthenticatedData {
 		if c.Flags.CD || !(c.Flags.DO || c.Flags.AD) {
 			return "ad-unasked", fmt.Sprintf("AD set toward a client with CD=%v DO=%v AD=%v", c.Flags.CD, c.Flags.DO, c.Flags.AD)
@@ -725,7 +769,7 @@ func judge(c caseT, w *world, r *dns.Msg, edns bool) (string, string) {
 	if effective(c) {
 		return "tampered-accepted", fmt.Sprintf("tampering %s was effective on a validated path, reply is %s with answers %v", tamperString(c), dns.RcodeToString[r.Rcode], nonSig(r.Answer))
 	}
-	if !zoneSigned(c.Zone) {
+	if !zoneSigned(c.Zone) && c.QK != "rootnx" {
 		if k := c.Tamper["answer"]; k != "" && k != "none" {
 			// an unsigned zone has no signer: tampering with its answers is outside
 			// the statement ("a name under an unbroken signed chain"); C07 covers it
